@@ -5,11 +5,11 @@
 set -u
 d="$(readlink -f "$1")"; shift
 crates="$*"
-wt="/tmp/vseed-$$"; export CARGO_TARGET_DIR="/tmp/vseed-target"
+wt="/tmp/vseed-$$"; export CARGO_TARGET_DIR="${VSEED_TARGET:-/tmp/vseed-target}"
 git -C /repo worktree add -q --detach "$wt" HEAD || exit 3
 trap 'git -C /repo worktree remove --force "$wt" 2>/dev/null' EXIT
 cd "$wt"
-run_demo() { (cd "$wt" && bash "$d/demo.sh" >/tmp/vseed-demo.log 2>&1); echo $?; }
+run_demo() { (cd "$wt" && bash "$d/demo.sh" >/tmp/vseed-demo-$$.log 2>&1); echo $?; }
 echo "demo without patch: exit=$(run_demo)"
 git checkout -q -- . ; git clean -qfd
 git apply "$d/patch.diff" || { echo "patch does not apply"; exit 3; }
